@@ -19,7 +19,7 @@ INFO = {
 }
 
 
-def h_offline(f, N, kind='offline', ext=True, times='origin'):
+def h_offline(f, N, kind='offline', ext=True, times='origin', twice=0):
     f = T(f)
     vs = sorted(variables(f))
     uf = refsem.has(f, {'sqrt', 'exp', 'ln', 'pow', 'log'})
@@ -39,6 +39,10 @@ def h_offline(f, N, kind='offline', ext=True, times='origin'):
             ts = [t0 + i for i in range(N)]
         else:
             ts = list(range(N))
+        if twice:
+            # the same specification object was evaluated before, on OTHER data of another length
+            w0 = dt.trace(env, vs, twice, ext=False, prefix='first_')
+            dt.offline(s, w0, twice)
         out = dt.offline(s, w, N, ts)
         asserts = [('shape', A.bool(isinstance(out, list) and len(out) == N and all(len(p) == 2 for p in out)))]
         if len(out) != N:
@@ -96,6 +100,13 @@ def obligations(tier, rng):
     for f in raws:
         for N in (2, 5):
             out.append(ob('C01', 'offline', 'units/%s/N=%d' % (f[1], N), f=f, N=N, kind='offline', ext=True, times='fixed'))
+    # re-use of one specification object: an earlier evaluate() on other data (longer and shorter) must leave no trace
+    for f in refsem.f1([(0, 1), (1, 2), (2, 3)]):
+        if refsem.has(f, {'sqrt', 'exp', 'ln', 'pow', 'log', 'div'}):
+            continue
+        for N, first in ((3, 5), (4, 2)):
+            out.append(ob('C01', 'offline', 'reuse/%s/N=%d after %d' % (text(f), N, first), f=f, N=N, kind='offline' if N % 2 else 'combined',
+                          ext=False, times='fixed', twice=first))
     # regression shapes named in the design
     for f in [('unless_t', X, Y, 1, 2), ('unless_t', X, Y, 0, 3), ('always_t', X, 0, 5), ('eventually_t', X, 2, 5)]:
         for N in (1, 2, 3):
